@@ -152,8 +152,8 @@ def own_key_rule(prog, R, prefix, tag):
 
 def n_rules(prog, env, W, R, prefix, tag):
     # ---------------- N1 dispatch errors are local to the connection task
-    runner = prog.fn("network::receiver::Receiver::<Handler>::spawn_runner")
-    run = prog.fn("network::receiver::Receiver::<Handler>::run")
+    from ..common import receiver_fns
+    run, runner = receiver_fns(prog)
     if R.judge(runner is not None and run is not None, prefix + ".N1", "receiver anchors" + tag, "", "",
                "anchor-missing: network Receiver::run / spawn_runner", reason="anchor-missing"):
         dsp = [n for n in runner.nodes() if n["k"] == "mcall" and n.get("fn") == "network::receiver::MessageHandler::dispatch"]
@@ -259,11 +259,11 @@ def n_rules(prog, env, W, R, prefix, tag):
 
     # ---------------- N5 every accepted connection is served: the accept loop hands each accepted socket to a runner under no
     # condition that earlier connections (which any stranger can open and break) could have made false
-    rr = prog.fn("network::receiver::Receiver::<Handler>::run")
+    rr, _runner = receiver_fns(prog)
     if R.judge(rr is not None, prefix + ".N5", "anchor Receiver::run" + tag, "", "", "anchor-missing", reason="anchor-missing"):
         from ..common import inner_cond
         lp = next((n for n in rr.nodes() if n["k"] in ("loop", "while")), None)
-        sr = [n for n in rr.nodes() if n["k"] in ("call", "mcall") and any(p.endswith("::spawn_runner") for p in callee_paths(n))]
+        sr = [n for n in rr.nodes() if n["k"] in ("call", "mcall") and _runner is not None and _runner.path in callee_paths(n)]
         R.floor(prefix + ".N5", len(sr), 1, "spawn_runner call in the accept loop" + tag)
         for n, i in ordinal_keys(sr, lambda x: 0):
             ok5 = lp is not None and any(x is n for x in ir.walk(lp["body"]))
